@@ -560,6 +560,73 @@ def rule_check_stateless(ctx, rid="R12.3w"):
     return r
 
 
+def rule_single_pass(ctx, rid="R12.7"):
+    """`formats` is documented as an Iterable: the subset constructor may walk it once.  A second walk of a one-shot
+    iterable finds nothing, the table comes out empty, and every format silently passes."""
+    prog = ctx.prog
+    r = ctx.rule(rid, "FormatChecker(formats=...) consumes its `formats` iterable at most once on every path", floor=1)
+    f = find_method(prog, "_format.FormatChecker", "__init__")
+    if len(f.params) < 2:
+        raise AnalysisError("FormatChecker.__init__ lost its formats parameter")
+    p = f.params[1]
+    cfg = cfg_of(f)
+    rd = reaching_defs(cfg)
+
+    def consumes(n):
+        """does node n iterate / hand over the *parameter* object (not a re-bound, realised copy)?"""
+        if cfg.entry.id not in rd[n.id].get(p, ()):
+            return []
+        out = []
+        exprs = node_exprs(n)
+        for e in exprs:
+            for x in walk_expr(e):
+                if isinstance(x, ast.Call):
+                    for a in list(x.args) + [k.value for k in x.keywords]:
+                        if isinstance(a, ast.Name) and a.id == p and norm(x.func) not in ("isinstance", "type", "id"):
+                            out.append(x)
+                        if isinstance(a, ast.Starred) and isinstance(a.value, ast.Name) and a.value.id == p:
+                            out.append(x)
+                if isinstance(x, (ast.GeneratorExp, ast.ListComp, ast.SetComp, ast.DictComp)):
+                    for g in x.generators:
+                        if isinstance(g.iter, ast.Name) and g.iter.id == p:
+                            out.append(g.iter)
+                if isinstance(x, ast.Compare) and any(isinstance(o, (ast.In, ast.NotIn)) for o in x.ops) and \
+                        any(isinstance(c, ast.Name) and c.id == p for c in x.comparators):
+                    out.append(x)
+        if n.kind == "for" and isinstance(n.ast.iter, ast.Name) and n.ast.iter.id == p:
+            out.append(n.ast.iter)
+        return out
+    cons = [(n, c) for n in cfg.live for c in consumes(n)]
+    bad = None
+    for (n, c) in cons:
+        if sum(1 for (m, _c) in cons if m is n) > 1:
+            bad = (n, n)
+            break
+        seen, todo = set(), [y for (_l, y) in n.succ]
+        while todo and bad is None:
+            x = todo.pop()
+            if x.id in seen:
+                continue
+            seen.add(x.id)
+            if x is n and n.kind == "for":
+                continue        # the loop head: its iterable is evaluated once
+            if any(m is x for (m, _c) in cons):
+                bad = (n, x)
+                break
+            todo.extend(y for (_l, y) in x.succ)
+        if bad:
+            break
+    if bad:
+        r.fail("%s|formats-walked-twice" % f.qual, site(f, bad[1].ast),
+               "`%s` is consumed at `%s` and again at `%s`: given a one-shot iterable the second walk is empty, the checker knows no "
+               "format, and every instance passes the formats it was built for" % (p, bad[0].text[:40], bad[1].text[:40]))
+    elif not cons:
+        r.fail("%s|formats-unused" % f.qual, site(f), "the `%s` argument is never consumed: the subset is ignored" % p)
+    else:
+        r.ok(site(f, cons[0][0].ast), "one walk: %s" % cons[0][0].text[:60])
+    return r
+
+
 def run(ctx):
     ctx.explanation = (
         "C12 is decided from the shape of three functions and the registry: R12.1 CFG must-pass-through of the "
@@ -567,7 +634,7 @@ def run(ctx):
         "FormatChecker.check (unknown names return, the entry's own `raises` is the only handler, FormatError iff falsy "
         "result, cause forwarded); R12.4 conforms wraps check; R12.5 every registered built-in checker in every "
         "optional-import branch tests isinstance(str) before any use of the instance and returns True otherwise; "
-        "R12.6 registration table sanity.")
+        "R12.6 registration table sanity; R12.7 the subset constructor walks its `formats` iterable once.")
     ctx.assume("custom checkers are opaque; their exceptions not listed in `raises` propagate by design")
     rule_off_without_checker(ctx)
     rule_no_type_gate(ctx)
@@ -577,3 +644,4 @@ def run(ctx):
     rule_conforms(ctx)
     rule_string_guard(ctx)
     rule_registration(ctx)
+    rule_single_pass(ctx)
